@@ -394,7 +394,29 @@ def r16_11(ctx: Ctx) -> None:
               "with '..' ('/tmp/../../tmp/x/f') are refused with ValueError although they name files inside the tree (and '../s/f' is accepted)", construct="inner dot-dot not resolved")
 
 
+def r16_12(ctx: Ctx, rule: str = "R16.12") -> None:
+    """the name writestr/writef store is the name the gate judged: check_archive_path reads every backslash as '/', so
+    _make_file_info_from_name replaces them in the RAW name, before pathlib normalises it.  Normalising first treats './\\a' as the two
+    components '.' and '\\a' - the './' is dropped, and the later replacement turns what is left into '/a': an accepted name is listed as
+    an absolute path."""
+    mk = shared.szf(ctx, "_make_file_info_from_name")
+    sets = [n for n in walk(mk.node) if isinstance(n, ast.Assign) and isinstance(n.targets[0], ast.Subscript) and isinstance(n.targets[0].slice, ast.Constant) and n.targets[0].slice.value == "filename"]
+    ctx.floor(rule, len(sets), 1, "name assignment in _make_file_info_from_name")
+    for n in sets:
+        v = q.expand_locals(mk, n.value)
+        repl = [x for x in ast.walk(v) if isinstance(x, ast.Call) and attr_tail(x) == "replace" and len(x.args) == 2 and isinstance(x.args[0], ast.Constant) and x.args[0].value == "\\"]
+        late = [x for x in repl if any(isinstance(y, ast.Call) and (attr_tail(y) in ("as_posix", "normpath", "Path", "PurePosixPath", "PurePath") or (dotted(y.func) or "").endswith(("Path", "normpath")))
+                                       for y in ast.walk(x.func.value))]
+        ctx.check(bool(repl) and not late, rule, mk, n, "backslashes become '/' in the raw name, before it is normalised",
+                  f"`{norm(n)[:110]}`: the backslashes are replaced AFTER pathlib has normalised the name (or not at all): the name the gate accepted with '\\' read as '/' ('./\\a' = './/a' = 'a') "
+                  "is normalised with the backslash as an ordinary character ('\\a' after the dropped './') and only then rewritten - the member is stored and listed as '/a', an absolute path",
+                  construct="backslash replaced after normalisation")
+
+
 def run(ctx: Ctx) -> None:
+    r16_12(ctx)
+    from . import c02 as _c02
+    _c02.r02_15(ctx, rule="R16.13")  # '' is a name, None is 'no name'
     r16_11(ctx)
     r16_10(ctx)
     r16_9(ctx)
